@@ -72,7 +72,7 @@ theorem containsIntRange_iff_subset (X Y : IR) :
     X.containsIntRange Y = true ↔ ∀ v, Y.mem v → X.mem v := containsIntRange_iff X Y
 
 /-- `Eq` is equality of the two sets of members (all empty representations are equal) -/
-theorem eq_iff_same_members (X Y : IR) : X.eq Y = true ↔ ∀ v, X.mem v ↔ Y.mem v := eq_iff X Y
+theorem rangeEq_iff_same_members (X Y : IR) : X.eq Y = true ↔ ∀ v, X.mem v ↔ Y.mem v := eq_iff X Y
 
 example : (⟨some 3, some 1⟩ : IR).eq ⟨some 1, some (-1)⟩ = true ∧
     (⟨none, some 5⟩ : IR).containsIntRange ⟨some 2, some 5⟩ = true ∧
